@@ -4,12 +4,13 @@
 # With KEEP=1 the scratch copy and build are kept (for repeated runs): /var/tmp/mut-<name>/
 set -u
 name=$1; patch=$2; shift 2
+[ "$patch" != "-" ] && patch=$(readlink -f "$patch")
 D=/var/tmp/mut-$name
 if [ ! -d $D/repo ]; then
   mkdir -p $D
   rsync -a --exclude _build --exclude .git /repo/ $D/repo/
   if [ "$patch" != "-" ]; then
-    (cd $D/repo && patch -p1 --no-backup-if-mismatch < $patch) || { echo "PATCH FAILED"; exit 2; }
+    (cd $D/repo && patch -p1 --no-backup-if-mismatch < $patch) || { echo "PATCH FAILED"; rm -rf $D; exit 2; }
   fi
 fi
 VERIF_REPO=$D/repo VERIF_BUILD_ROOT=$D/build /verif/bin/check "$@"
